@@ -3,6 +3,8 @@ FAMILY = "cons"
 
 STREAMS = {
     # cases = whole multi-instance, multi-epoch scenarios (30–120 events quick, up to 280 thorough)
+    # vector index alone: forkers of ANY weight, 2-3 indexes with different parents-first orders, all pairs on small DAGs
+    "vec": {"quick": 400, "thorough": 6000, "trivial": ["bad-op", "na", "ok"], "keep_ops": ["vals", "idx", "ev"]},
     "cons": {"quick": 300, "thorough": 1500, "trivial": ["bad-op", "na", "unknown-event"], "timeout": 3000, "keep_ops": ["vals", "seal", "inst"]},
 }
 
@@ -21,8 +23,8 @@ _NOTE = ("Trusted: Lean kernel; harness + diff; the reference implementation is 
          "The generator is closed-loop (it runs the real code to learn frames and seal points) but the ops it writes are explicit and replayed blindly.")
 
 
-def _p(claim, props=None, level="other"):
-    d = {"props": props or [], "streams": ["cons"], "claim": claim, "note": _NOTE, "level": level,
+def _p(claim, props=None, level="other", streams=None):
+    d = {"props": props or [], "streams": streams or ["cons"], "claim": claim, "note": _NOTE, "level": level,
          "explanation": _REF + _MODEL + _STREAM,
          "trusted": ["reference implementation Spec/Lachesis.lean (reading of the rule text)", "harness stream cons"],
          "assumptions": ["cheaters hold < 1/3 of the weight in generated scenarios"]}
@@ -40,15 +42,15 @@ PROPS = {
               "Correspondence: each block's delivered set and ApplyEvent call count are compared with 'ancestry of the Atropos minus everything delivered before' "
               "computed by the reference; frames consecutive from 1; Atropos is a root of the frame (reference picks it among roots).",
               props=["LachesisVerif.Props.C02"], level="proof"),
-    "C03": _p("Cheater lists compared with the canonical-order list of validators having an equal-seq pair in the Atropos' ancestry."),
+    "C03": _p("Cheater lists compared with the canonical-order list of validators having an equal-seq pair in the Atropos' ancestry.", streams=["vec", "cons"]),
     "C04": _p("Proof: on the model of calcFrameIdx/checkAndSaveEvent (loop condition, cap +100, f==0->1, final comparison regenerated) Process accepts "
               "exactly the allowed frames, Build returns the greatest allowed frame <= spf+100, built-then-processed is accepted, roots are registered for "
               "exactly the frames (spf, frame]; for an arbitrary quorum predicate. That the predicate is the graph one regardless of earlier builds is "
               "covered by correspondence: Build results compared with the highest allowed frame (cap 100) and Process accept/reject with the frame rule of the reference, "
               "including under-claimed and over-claimed frames and events built but never processed.",
               props=["LachesisVerif.Props.C04"], level="proof"),
-    "C05": _p("ForklessCause answers compared with the graph definition for random pairs, under every indexing order and cache size."),
-    "C06": _p("Merged highest-before vectors (both accessors) compared with fork/max-seq of the graph definition."),
+    "C05": _p("ForklessCause answers compared with the graph definition for random pairs, under every indexing order and cache size.", streams=["vec", "cons"]),
+    "C06": _p("Merged highest-before vectors (both accessors) compared with fork/max-seq of the graph definition.", streams=["vec", "cons"]),
     "C07": _p("Proof (partial): the forkless-cause result cache (the only volatile state that survives DropNotFlushed) is transparent for every "
               "history of adds, commits, roll-backs, queries and evictions, provided an id never denotes two different events (negative witness for "
               "the pre-fix temporary ids); the Orderer model writes nothing before the frame check. Not proved: determinism of the uncached answer "
